@@ -66,7 +66,14 @@ func (c11) Gen(seed uint64, run int, tier string) *Plan {
 				p.Actions = append(p.Actions, Action{Kind: "checkin", B: d})
 			}
 		default:
-			if p.Policy.Name != "atomic" {
+			if p.Policy.Name != "atomic" && r.Intn(3) == 0 {
+				// a listener whose announcement sits early in the retained log is removed while an
+				// operator is being replayed that log
+				b, c := r.Intn(3), r.Intn(2)
+				p.Actions = append(p.Actions, Action{Kind: "ladd", A: 0, B: b, C: c},
+					Action{Kind: "chat", A: 0, S: fmt.Sprintf("a-%d-%d", run, i)}, Action{Kind: "chat", A: 0, S: fmt.Sprintf("b-%d-%d", run, i)},
+					Action{Kind: "par", A: 2}, Action{Kind: "login", A: o}, Action{Kind: "lremove", A: 0, B: b, C: c})
+			} else if p.Policy.Name != "atomic" {
 				p.Actions = append(p.Actions, Action{Kind: "par", A: 2 + r.Intn(3)})
 			} else {
 				p.Actions = append(p.Actions, Action{Kind: "chat", A: 0, S: fmt.Sprintf("m-%d", i)})
@@ -592,9 +599,10 @@ func (st *c11State) checkLive() {
 		}
 	}
 	// an event counts only if its first delivery to any of them happened after the window start
+	// (first delivery anywhere: a broadcast may reach an operator in the middle of its replay)
 	first := map[string]uint64{}
 	for _, c := range vs {
-		for _, e := range c.o.Events[c.liveFrom:] {
+		for _, e := range c.o.Events {
 			k := liveKey(e)
 			if s, ok := first[k]; !ok || e.Step < s {
 				first[k] = e.Step
